@@ -522,7 +522,7 @@ def check_property(prop, tier, jobs, only=None, shape_filter=None):
                                 f.write('# ' + l + '\n')
                             f.write('native_reproduced: %s\n' % rep)
                         if rep is None:
-                            tag = ' replay-could-not-run'
+                            tag = ' replay-could-not-run no-failing-input-found'
                         elif rep is False:
                             # model checker and real execution disagree: tool problem, not a violation
                             undecided.append('%s: %s failed in CBMC but native replay passed (%s)' % (r.qid, name, path))
